@@ -1289,3 +1289,13 @@ def run(chk: Check):
         if missing:
             raise common.MachineryError("the exported models never exercise: %s" % ", ".join(missing))
     chk.cov["exhaustive"] = True
+
+
+# ---- growth beyond the listed property: the client-side parcel map (ParcelOverlay.tla)
+_run_scene = run
+
+
+def run(chk):
+    _run_scene(chk)
+    from . import growth_parceloverlay
+    common.growth(chk, "ParcelOverlay", growth_parceloverlay.section)
